@@ -607,7 +607,7 @@ def from_json(j):
 # driver
 
 
-def run_one(ctx, mode, body) -> None:
+def run_one(ctx, mode, body, sampled: bool = False) -> None:
     a = assess(mode, body)
     ctx.count("evaluations")
     ctx.count("skeletons")
@@ -651,6 +651,19 @@ def run_one(ctx, mode, body) -> None:
     for raw in a.raws:
         ctx.count("raw_violations")
         key, what, wit = classify(mode, body, raw)
+        if sampled:
+            # a violation of a randomly sampled 6-7 statement skeleton whose MINIMAL witness lies inside the
+            # exhaustively enumerated space (<= 5 statements, nesting <= 3; global mode <= 4) is the very witness the
+            # exhaustive part of this run reports with its exact key: nothing new. Only a witness that does not shrink
+            # into that space is new information; its key stays coarse (no needs:), because the construct sets of large
+            # random skeletons are too varied to enumerate.
+            small = strip(from_json(wit["skeleton"]))
+            inside = sk.size(small) <= (4 if wit["mode"] == "global" else 5) and sk.depth(small) <= 3
+            if inside:
+                ctx.count("sampled_violations_already_covered_by_exhaustive_part")
+                continue
+            key = key.split("|needs:")[0] + "|minimal-witness-larger-than-exhaustive-space"
+            wit["key"] = key
         if key in done:
             continue
         done.add(key)
@@ -683,11 +696,13 @@ def shard(ctx) -> None:
             if s is None or s in seen or not 6 <= sk.size(s[1]) <= 7 or sk.depth(s[1]) > 4:
                 continue
             seen.add(s)
-            work.append(s)
             want -= 1
         ctx.count("sampled_skeletons", len(seen))
     for mode, body in work:
         run_one(ctx, mode, body)
+    if not ctx.quick:
+        for mode, body in sorted(seen, key=repr):
+            run_one(ctx, mode, body, sampled=True)
     ctx.count("shrink_memo", len(_SHRUNK))
     ctx.count("assess_memo", len(_CACHE))
 
@@ -702,6 +717,9 @@ def replay(witness):
         return "harness|exception", f"check raised {a.exception!r}"
     found = [classify(mode, body, raw)[:2] for raw in a.raws]
     want = witness.get("key")
+    BIG = "|minimal-witness-larger-than-exhaustive-space"
+    if want and want.endswith(BIG):
+        found = [(key.split("|needs:")[0] + BIG, what) for key, what in found]
     for key, what in found:
         if key == want:
             return key, what
